@@ -116,8 +116,20 @@ func Hash64(parts ...string) uint64 {
 // NonTrivial records that the current evaluation was non-trivial under the
 // property's rule; key identifies the case for distinct counting.
 func (c *Ctx) NonTrivial(key uint64) {
+	// Distinct keys are tracked exactly up to a per-worker cap; beyond it the
+	// reported number is a lower bound (events.distinct_tracking_capped).
+	if len(c.w.nontrivial) >= maxDistinctPerWorker {
+		if _, ok := c.w.nontrivial[key]; !ok {
+			c.w.events["distinct_tracking_capped"] = 1
+		}
+
+		return
+	}
 	c.w.nontrivial[key] = struct{}{}
 }
+
+// maxDistinctPerWorker bounds the memory of distinct counting.
+const maxDistinctPerWorker = 1 << 20
 
 // Eval counts one oracle evaluation (a case may contain many).
 func (c *Ctx) Eval(n int) {
